@@ -411,8 +411,9 @@ func runCOSOpenSSH(env *Env, sc *COS, dir string) {
 // runCOSDial: the standard transport's own dial (the branch the simulated legs replace through the
 // Dial seam) against the in-process server on loopback, reached by NAME: the known-hosts file is
 // consulted for the configured host, not for the address it resolves to.
-//   has   = the server's key is listed under the name only
-//   other = another key is listed under the name, the server's key under the address only
+//
+//	has   = the server's key is listed under the name only
+//	other = another key is listed under the name, the server's key under the address only
 func runCOSDial(env *Env, sc *COS, dir string) {
 	addrs, err := net.LookupHost("localhost")
 	if err != nil || len(addrs) == 0 {
